@@ -61,6 +61,38 @@ CHECKS["C24"] = ("exploration",
   "Trusted: documented status/envelope contract (README, openapi.yaml). Left out: malformed HTTP framing, bodies with trailing bytes after a complete JSON value (docs silent), huge limit values.",
   "DESIGN.md §3-C24")
 
+
+def _inp(pid, tech, text, note):
+  CHECKS[pid] = ("exploration", tech, text, note, f"DESIGN.md §3-{pid}")
+
+_inp("C07", "exhaustive enumeration of small worlds (schemas x corpora x segment layouts x deletion) x all query trees within a leaf/depth bound, against an independent boolean evaluator over the real analyzer's tokens",
+  "Six analyzer schemas x every corpus of <=3 (quick) / <=4 (thorough) document shapes x every segment layout x {no deletion, one deletion} x every leaf (term, query_string forms, phrase slop 0-2, prefix, wildcard, regex, multi_match variants, match_all, constant_score, rank_feature) alone, under unary wrappers and in every bool / dis_max / function_score / script_score tree within the bound, plus fuzzy options; hit-id sets (bm25, covering limit) must equal the evaluator; every token the index analyzer emits for a document must find it via term().",
+  "Trusted: the evaluator's reading of README/docs; inputs the docs leave open are skipped and counted (undetermined), e.g. function_score.min_score composition, phrases across values of a multi-valued field, anchored vs unanchored regex.")
+_inp("C08", "exhaustive enumeration of nested-document worlds x all And/Or/Not/Nested filter trees within a bound, against an evaluator over the source JSON",
+  "Documents with up to 2 comment objects x 2 reply objects x 1 deep object (empty arrays, null, single object vs array, multi-valued values) in 1-2 document worlds over all layouts x every filter tree of <=3 (quick) / <=4 (thorough) leaves and depth <=4 (KeywordEq/In with case variants, inclusive I64/F64 ranges incl. wrong numeric type, dotted paths, Nested in Nested, sibling Nested under And); observed through match_all + filter.",
+  "Trusted: evaluator semantics pinned to README; where README allows two readings (shared prefix of sibling nested chains, null array elements) a case is judged only when both agree.")
+_inp("C09", "exhaustive differential enumeration: worlds x scored query trees x limits x block sizes, wand and bmw against exhaustive bm25",
+  "All sequences of <=3 (quick) / <=5 (thorough) document shapes (tf 1-3, lengths 1-6, rank field) x every 1-2 segment layout x 55 scored trees (boosts, dis_max ties, bool mixes, function_score modes, script_score, rank_feature, constant_score) x limit 1..4 x bmw block sizes {1,2,3,128,300}: same hits, order and scores (1e-5, near-tie classes) as bm25.",
+  "Trusted: bm25 execution as the reference (its scores are checked independently by C10).")
+_inp("C10", "exhaustive enumeration of worlds x sort plans x scored trees against an independent BM25 + score-tree + sort-key oracle",
+  "Scores of every returned hit are recomputed from the segment's statistics with the BM25 formula of query/bm25.rs combined through the query tree; order is checked lexicographically for every sort plan of 1-3 keys over {_score, keyword, i64, f64} x {asc, desc, default} (768 plans quick, 1884 thorough) incl. multi-valued min/max, missing-last and the (segment, ordinal) tie-break.",
+  "Trusted: BM25 constants recorded from the pinned tree; only returned hits are judged; combinations the README does not define (node-level boosts on compound nodes, max_boost readings) are left out.")
+_inp("C18", "exhaustive enumeration of grouped worlds x main/inner sort plans x from/size/limit, differential against the uncollapsed ranking",
+  "Every assignment of <=3 group values (sizes 1-4, or none) to n<=5 (quick) / n<=6 (thorough) tie-prone documents over 1-2 segments x 492 collapse requests; with limit >= n the whole response (representatives, group order, windowed inner hits, total_groups) must equal the recomputation from the same request without collapse; with limit < n the invariants of the statement.",
+  "Trusted: uncollapsed search as reference (C10/C11); documents without the collapse field are not constrained.")
+_inp("C19", "exhaustive enumeration of worlds x (query, rescore query) x window x mode x limit against a recomputation from the un-rescored response",
+  "1,672 (quick) / 188,744 (thorough) worlds x 4 queries x 5 rescore queries x window 0..limit+5 x 5 score modes x 3 limits: hits behind the window keep score and relative order; window survivors carry the documented combination and are sorted by it; min_score rejects are dropped.",
+  "Trusted: un-rescored response and a separate bm25 search for the rescore scores; windows larger than the candidate pool are not judged.")
+_inp("C20", "exhaustive differential enumeration of worlds x requests x {explain, profile} flags",
+  "972 (quick) / 324,720 (thorough) worlds x 35 requests (executions, sort plans, filter, custom scoring, aggs, collapse, rescore, cursors) x 3 flag combinations: hits, order, scores, totals, cursors and aggregations equal the flags-off response; every explanation.final_score equals its hit's score.",
+  "Trusted: flags-off response as reference.")
+_inp("C21", "exhaustive enumeration of multi-byte texts x queries x fragment sizes x fragment counts x tags against a fragment well-formedness checker",
+  "All texts of <=3 (quick) / <=4 (thorough) words over {rust, a, café, naïve, 日本, 検索, 😀, e🙂f} with two separators, plus long padded texts reaching the legacy 120-byte snippet window at every byte phase; every word and adjacent phrase as query; fragment_size from twice the match length to text length + 2; number_of_fragments 0..3; two tag pairs; highlight and legacy highlight_field.",
+  "Trusted: checker (non-empty, tagged match, tag-stripped substring of the stored text, char length <= fragment_size, count <= number_of_fragments); fragment_size below twice the byte length of the match is outside the property's precondition.")
+_inp("C22", "exhaustive enumeration of corpora x all segment layouts x prefixes x fuzzy options against a recomputation from analyzer tokens",
+  "Every multiset of <=3 (quick) / <=4 (thorough) documents over 20 token shapes x every ordered partition into commits x 264 completion requests (8 prefixes, size 1..3, 11 fuzzy settings), plus many-segment corpora that cross the scan caps: options are indexed terms matching the prefix / edit distance rule, doc_freq exact, ordered by score then text, deterministic, identical across layouts.",
+  "Trusted: recomputation; score values themselves are only observed (README does not pin them); deletions excluded as the property states.")
+
 NOT_YET = "check not built yet in this session (see DESIGN.md §3 for the planned engine); no verdict is claimed"
 NOT_APPLICABLE = {}
 
